@@ -140,3 +140,72 @@ Proof.
   exists A1, e1, B1, e2, B2, e3, A2, e4, s1, s2.
   repeat (split; [assumption|]). assumption.
 Qed.
+
+(* the same handshake seen with the SERVER as the publishing side (PairLossS): the invariant with the roles swapped *)
+From MQ Require Import Conn.PairLossS.
+Lemma persistent_handshake_states gs gr A0 B0 cn ca :
+  OWN gs A0 -> OWN gr B0 -> c_version A0 = V311 -> c_version B0 = V311 -> c_status A0 = Disconnected -> c_status B0 = Disconnected ->
+  EMPTY A0 -> EMPTY B0 -> role_client_ok gs = true -> role_server_ok gr = true ->
+  k_type cn = T_CONNECT -> k_ver cn = V311 -> k_flag cn = false ->
+  k_type ca = T_CONNACK -> k_ver ca = V311 -> k_rc ca = 0 ->
+  exists A1 e1 B1 e2 B2 e3 A2 e4,
+    step gs A0 (OSend cn) = Ok (A1, e1, []) /\ sends e1 = [cn] /\ errors e1 = [] /\
+    deliver gr B0 cn = Ok (B1, e2) /\ notifies e2 = [cn] /\ errors e2 = [] /\
+    step gr B1 (OSend ca) = Ok (B2, e3, []) /\ sends e3 = [ca] /\ errors e3 = [] /\
+    deliver gs A1 ca = Ok (A2, e4) /\ notifies e4 = [ca] /\ errors e4 = [] /\
+    OWN gs A2 /\ HVP A2 Connected /\ c_auto_pub A2 = c_auto_pub A0 /\ OWN gr B2 /\ HVP B2 Connected /\ c_auto_pub B2 = c_auto_pub B0.
+Proof.
+  intros OA OB VA VB SA SB EA EB RA RB T1 V1 F1 T2 V2 C2.
+  destruct (client_sends_connectP A0 cn VA SA EA V1 F1) as (A1 & e1 & E1 & S1 & X1 & H1 & P1).
+  pose proof (send_connect_OR gs A0 cn OA) as O1. rewrite E1 in O1. destruct O1 as [OA1 _].
+  destruct (server_receives_connectP gr B0 cn VB SB EB F1) as (B1 & e2 & E2 & N2 & X2 & S2 & H2 & P2).
+  pose proof (recv_connect_OR gr B0 V311 (PROk cn) OB) as O2. rewrite E2 in O2. destruct O2 as [OB1 _].
+  destruct (server_sends_connackP B1 ca H2 V2 C2) as (B2 & e3 & E3 & S3 & X3 & H3 & P3).
+  pose proof (send_connack_OR gr B1 ca OB1) as O3. rewrite E3 in O3. destruct O3 as [OB2 _].
+  destruct (client_receives_connackP A1 ca H1 C2) as (A2 & e4 & E4 & N4 & X4 & S4 & H4 & P4).
+  pose proof (recv_connack_OR gs A1 V311 (PROk ca) OA1) as O4. rewrite E4 in O4. destruct O4 as [OA2 _].
+  pose proof H1 as (a1 & _). pose proof H2 as (b1 & _).
+  exists A1, e1, B1, e2, B2, e3, A2, e4.
+  split; [rewrite (step_send_connect gs A0 cn ltac:(congruence) T1 RA), E1; reflexivity|]. split; [exact S1|]. split; [exact X1|].
+  split; [unfold deliver, dispatch_recv; rewrite T1, VB; exact E2|]. split; [exact N2|]. split; [exact X2|].
+  split; [rewrite (step_send_connack gr B1 ca ltac:(congruence) T2 RB), E3; reflexivity|]. split; [exact S3|]. split; [exact X3|].
+  split; [unfold deliver, dispatch_recv; rewrite T2, a1; exact E4|]. split; [exact N4|]. split; [exact X4|].
+  split; [exact OA2|]. split; [exact H4|]. split; [congruence|]. split; [exact OB2|]. split; [exact H3|congruence].
+Qed.
+
+Theorem fresh_endpoints_interoperate_across_loss_server_publishes gc gsv cn ca l :
+  1 <= g_idmax gc -> 1 <= g_idmax gsv -> role_client_ok gc = true -> role_server_ok gsv = true -> 2 + g_idw gsv <= MQTT_PACKET_SIZE_NO_LIMIT ->
+  k_type cn = T_CONNECT -> k_ver cn = V311 -> k_flag cn = false ->
+  k_type ca = T_CONNACK -> k_ver ca = V311 -> k_rc ca = 0 ->
+  Forall good_actS l ->
+  let A0 := set_auto_pub (conn_new gc V311) true in
+  let B0 := set_auto_pub (conn_new gsv V311) true in
+  exists A1 e1 B1 e2 B2 e3 A2 e4 s1 s2,
+    step gc A0 (OSend cn) = Ok (A1, e1, []) /\ sends e1 = [cn] /\
+    deliver gsv B0 cn = Ok (B1, e2) /\ notifies e2 = [cn] /\
+    step gsv B1 (OSend ca) = Ok (B2, e3, []) /\ sends e3 = [ca] /\
+    deliver gc A1 ca = Ok (A2, e4) /\ notifies e4 = [ca] /\
+    errors e1 = [] /\ errors e2 = [] /\ errors e3 = [] /\ errors e4 = [] /\
+    (* the SERVER is the publishing side from here on *)
+    run_schedS gsv gc (mkSys B2 A2 [] [] [] []) l = Some s1 /\
+    run_schedS gsv gc s1 (drainS (measure s1)) = Some s2 /\
+    qsr s2 = [] /\ qrs s2 = [] /\ c_store (cs s2) = [] /\
+    map undup (filter q2 (delivered s2)) = map undup (filter q2 (published s1)) /\
+    (forall p, In p (published s1) -> k_type p = T_PUBLISH -> k_qos p = 1 -> In (undup p) (map undup (delivered s2))).
+Proof.
+  intros IA IB RA RB Hw T1 V1 F1 T2 V2 C2 Hl A0 B0.
+  assert (OA : OWN gc A0) by (apply (f8_own gc (conn_new gc V311)); [unfold F8; repeat split|exact (conn_new_OWN gc V311 IA)]).
+  assert (OB : OWN gsv B0) by (apply (f8_own gsv (conn_new gsv V311)); [unfold F8; repeat split|exact (conn_new_OWN gsv V311 IB)]).
+  assert (EA : EMPTY A0) by (unfold EMPTY; repeat split). assert (EB : EMPTY B0) by (unfold EMPTY; repeat split).
+  destruct (persistent_handshake_states gc gsv A0 B0 cn ca OA OB eq_refl eq_refl eq_refl eq_refl EA EB RA RB T1 V1 F1 T2 V2 C2)
+    as (A1 & e1 & B1 & e2 & B2 & e3 & A2 & e4 & E1 & S1 & X1 & E2 & N2 & X2 & E3 & S3 & X3 & E4 & N4 & X4 & OA2 & HA & PA & OB2 & HB & PB).
+  pose proof (K_of_HVP gc A2 _ OA2 HA) as KA. pose proof (K_of_HVP gsv B2 _ OB2 HB) as KB.
+  destruct HA as (d1 & d2 & d3 & d4 & d5 & d6 & d7 & d8 & d9 & d10). destruct HB as (c1 & c2 & c3 & c4 & c5 & c6 & c7 & c8 & c9 & c10).
+  assert (Hall : allS gsv gc (mkSys B2 A2 [] [] [] [])).
+  { split; [|split; [exact (accB_init B2 A2 d3 c4)|exact (accC_init B2 A2 c4)]]. apply invL_init.
+    - exact KB. - split; [exact c1|rewrite c2; reflexivity]. - rewrite PB; reflexivity. - exact c10. - exact c9. - exact c4.
+    - exact KA. - split; [exact d1|rewrite d2; reflexivity]. - rewrite PA; reflexivity. - exact d10. - exact d4. - exact d3. }
+  destruct (server_to_client_across_loss gsv gc RB RA Hw l _ Hall Hl) as (s1 & s2 & R1 & R2 & Q1 & Q2 & St & D2 & D1).
+  exists A1, e1, B1, e2, B2, e3, A2, e4, s1, s2.
+  repeat (split; [assumption|]). assumption.
+Qed.
